@@ -475,3 +475,31 @@ Example fixed_refuses_old_witnesses :
   verify_nodata_nsec [[101]; [115]] T_DS w_set_cut = E_ok /\
   verify_nameerror_nsec [[101]; [116]] w_set_cut = E_ok.
 Proof. vm_compute. repeat split; reflexivity. Qed.
+
+(* ------------------------------------------------------------ Resolver.authority (NSEC branch) *)
+From Sdns Require Import C02.ModelAuth.
+
+(* whatever Resolver.authority authenticates (AD), publishes, or marks aggressive-eligible is a
+   true denial of the zone; eligibility means the RFC 8198 classifier reached the SAME rcode *)
+Theorem authority_nsec_sound_lemma z set rcode cd q qtype qclass signer ad marked aggr :
+  zone_wf z -> (forall r, In r set -> genuine z r) -> is_prefix (z_apex z) q ->
+  authority_nsec rcode cd q qtype qclass signer set = (E_ok, ad, marked, aggr) ->
+  (ad = true \/ marked = true \/ aggr = true) ->
+  cd = false /\
+  (if (rcode =? RC_NXDOMAIN)%N then ~ exists_in z q else nodata_true z q qtype) /\
+  (aggr = true -> exists proof, aggr_nsec q qtype qclass signer set = A_deny rcode proof).
+Proof.
+  intros Hwf Hgen Hq. unfold authority_nsec. destruct cd.
+  - intros E. inversion E; subst. intros [H|[H|H]]; discriminate.
+  - destruct (rcode =? RC_NXDOMAIN)%N eqn:Er.
+    + destruct (verify_nameerror_nsec q set) eqn:Ev; try discriminate.
+      intros E _. inversion E; subst. split; [reflexivity|]. split.
+      * apply (exact_nameerror_nsec_sound z Hwf set Hgen q Hq Ev).
+      * cbn. destruct (aggr_nsec q qtype qclass signer set) as [e|rc proof]; [discriminate|].
+        intros Hrc. apply N.eqb_eq in Hrc. subst. eauto.
+    + destruct (verify_nodata_nsec q qtype set) eqn:Ev; try discriminate.
+      intros E _. inversion E; subst. split; [reflexivity|]. split.
+      * apply (exact_nodata_nsec_sound z Hwf set Hgen q qtype Hq Ev).
+      * cbn. destruct (aggr_nsec q qtype qclass signer set) as [e|rc proof]; [discriminate|].
+        intros Hrc. apply N.eqb_eq in Hrc. subst. eauto.
+Qed.
